@@ -304,9 +304,42 @@ fn table_layout(rep: &mut Report, r: &mut Rng) {
         rep.violation("PageTable::clone|bytes-differ", J::Null);
     }
     let d = PageTable::default();
-    if !d.is_empty() {
+    if !d.is_empty() || bytes(&d).iter().any(|&b| b != 0) {
         rep.violation("PageTable::default|not-empty", J::Null);
     }
+    // a copy of a table is that table's 512 entries, whichever Clone method makes it and whatever the target held before
+    for k in 0..24 {
+        rep.eval();
+        let fill = |r: &mut Rng, t: &mut PageTable, dense: bool| {
+            for i in 0..512usize {
+                if dense || r.chance(1, 6) {
+                    let (a, f) = (rand_addr(r), rand_flags(r));
+                    t[i].set_addr(PhysAddr::new(a), PageTableFlags::from_bits_truncate(f));
+                }
+            }
+        };
+        let mut src = Box::new(PageTable::new());
+        let mut dst = Box::new(PageTable::new());
+        match k % 4 {
+            0 => fill(r, &mut dst, true),                                   // empty source into a full target
+            1 => { fill(r, &mut src, false); fill(r, &mut dst, true) }      // sparse into full
+            2 => { fill(r, &mut src, true); fill(r, &mut dst, false) }      // full into sparse
+            _ => fill(r, &mut src, false),                                  // sparse into empty
+        }
+        let sb = bytes(&src);
+        dst.clone_from(&src);
+        if bytes(&dst) != sb || bytes(&src) != sb || dst.is_empty() != src.is_empty() {
+            let slot = (0..512).find(|&i| bytes(&dst)[8 * i..8 * i + 8] != sb[8 * i..8 * i + 8]).unwrap_or(0);
+            rep.violation("PageTable::clone_from|target-is-not-a-copy-of-the-source", J::obj(vec![("case", J::U(k % 4)), ("first_differing_slot", J::U(slot as u64))]));
+            break;
+        }
+        let c = Box::new((*src).clone());
+        if bytes(&c) != sb {
+            rep.violation("PageTable::clone|bytes-differ", J::Null);
+            break;
+        }
+    }
+    rep.class("table|clone-and-clone_from");
 }
 
 /// the pointer-identity part of `table_layout` on a stride of slots (interpreter-friendly): iter_mut uses raw ptr.add
